@@ -161,7 +161,21 @@ def gen_w(rng, cfg, fm, favourites, kind=None):
                 op["iso"].pop("model", None)
         else:
             op.update(autoinsert_material=rng.random() < 0.5, autoinsert_adsorbate=rng.random() < 0.5)
-        if op["iso"]["kind"] == "point" and len(op["iso"]["pressure"]) < 100 and rng.random() < 0.4:
+        r8 = rng.random()
+        if r8 < 0.08:
+            # more metadata than any bulk path's threshold
+            op["iso"]["meta"] = dict(op["iso"].get("meta") or {})
+            op["iso"]["meta"].update({"verif_k%03d" % i: 0.5 + i for i in range(rng.randint(101, 140))})
+        elif r8 < 0.26 and op["iso"]["kind"] == "point" and len(op["iso"]["pressure"]) < 100:
+            # a supplementary column in which a later reading is an object the data serialiser rejects (a failure in
+            # non-SQL code between two statements)
+            n = len(op["iso"]["pressure"])
+            col = [0.5 * i for i in range(n)]
+            col[rng.randrange(1, n)] = {"__py__": rng.choice(["bytes", "decimal"])}
+            op["iso"]["other"] = dict(op["iso"].get("other") or {})
+            op["iso"]["other"]["verif_obj"] = col
+            op["iso"]["route"] = "frame"
+        elif op["iso"]["kind"] == "point" and len(op["iso"]["pressure"]) < 100 and rng.random() < 0.4:
             # a supplementary column without a single reading (all None), or whose first readings are missing
             n = len(op["iso"]["pressure"])
             op["iso"]["other"] = dict(op["iso"].get("other") or {})
@@ -509,6 +523,27 @@ class Case:
         if self.viol:
             return
 
+        # ---- the same operation inside a transaction the CALLER owns (the `cursor=` route the library itself uses for
+        # nested calls): nothing may be durable before the caller commits, nothing may remain after the caller rolls back
+        if w["op"].endswith("_to_db") or w["op"].endswith("_delete_db"):
+            for how in ("rollback", "commit"):
+                rc, dc, _ = self.trial(dict(w, caller_txn=how))
+                if rc["result"] is None:
+                    raise HarnessError("caller-transaction child died: " + json.dumps(rc)[:300])
+                oc = rc["result"]["r1"]["outcome"]
+                shac = c08.dump_sha(dc)
+                self.count("trials:caller-owned-transaction")
+                self.events.append(["caller-txn", how, oc, "pre" if shac == sha_pre else "post" if shac == sha_post else "other"])
+                if how == "rollback" and shac != sha_pre:
+                    self.fail("caller-rollback-left-changes", f"w={wclass} outcome={'ok' if oc == 'ok' else 'refused'} "
+                              f"tables={_half_sig(D_pre, D_post, dc)}", {"outcome": oc})
+                    return
+                if how == "commit" and oc == "ok" and out1["outcome"] == "ok" and shac != sha_post:
+                    self.fail("caller-commit-incomplete", f"w={wclass} tables={_half_sig(D_pre, D_post, dc)}", {})
+                    return
+                if how == "commit" and oc != "ok" and shac != sha_pre:
+                    self.fail("caller-transaction-partly-committed", f"w={wclass} outcome=refused tables={_half_sig(D_pre, D_post, dc)}", {})
+                    return
         # ---- enumerate
         plans = []
         for i, ev in enumerate(events, start=1):
